@@ -259,11 +259,11 @@ theorem aggTarget_indexed_along (agg : Agg) (cols : List (List Int)) (indices va
 /-- `df.groupby(by, hint).min|max|first|last(target)` for an indexed-string target -/
 theorem groupbyAgg_indexed_spec (agg : Agg) (k0 : KeyCol) (ks : List KeyCol) (hint : Bool) (indices values : List Nat) (n : Nat)
     (hrect : Rect n ((k0 :: ks).map (·.data))) (hv : ValidIndex indices values) (hlen : indices.length = n + 1)
-    (hf : Faithful (k0 :: ks)) (hhint : hint = true → SortedRows ((k0 :: ks).map (·.data)) n) :
+    (hhint : hint = true → SortedRows ((k0 :: ks).map (·.data)) n) :
     ∃ kcols out outKeys, groupbyAgg .repaired agg (k0 :: ks) hint [.indexed indices values] = .ok ⟨kcols, [.strs out]⟩ ∧
       ColumnsOf kcols outKeys ∧
       IsGroupBy (rowsBy ((k0 :: ks).map (·.data)) n) (decodeRows indices values) (aggSpecStr agg) outKeys out := by
-  obtain ⟨idx, si, hperm, hs, hsi, hg⟩ := groupby_paths k0 ks hint n hrect hf hhint
+  obtain ⟨idx, si, hperm, hs, hsi, hg⟩ := groupbyCols_paths k0 ks hint n hrect hhint
   let T0 := List.replicate n (0 : Int)
   have hT0 : T0.length = n := by simp [T0]
   obtain ⟨kcols, _, hwk, _, hcols, _⟩ := outputs_along .first ((k0 :: ks).map (·.data)) T0 n idx si hperm hsi hrect hT0
@@ -273,7 +273,7 @@ theorem groupbyAgg_indexed_spec (agg : Agg) (k0 : KeyCol) (ks : List KeyCol) (hi
   obtain ⟨out, hag, hvals⟩ := aggTarget_indexed_along agg ((k0 :: ks).map (·.data)) indices values n idx si hperm hsi hv hlen
   have hk := distinctAscending_unique hda0 hda
   refine ⟨kcols, out, _, ?_, by rw [← hk]; exact hcols, hda, ?_⟩
-  · simp only [groupbyAgg, hg, hwk, aggTargets, hag, SortIndex.consE_ok]
+  · simp only [groupbyAgg, groupby, aggOf, hg, hwk, aggTargets, hag, SortIndex.consE_ok]
   · rw [hvals, hsel, map_map]; rfl
 
 end Exetera.GroupBy
